@@ -12,7 +12,8 @@ def sigma(name, sd=None):
     core = base + ['\\\\', '\\%', '\\[', '\\]', '\\' + N.x, '\\item', '\\begin{%s}' % N.e, '\\end{%s}' % N.e]
     full = core + ['*', '%', '&', '#', '\\(', '\\)', '\\begin', '\\end', '{%s}' % N.e,
                    '\\begin{equation}', '\\end{equation}', '\\begin{verbatim}', '\\end{verbatim}', '\\newcommand',
-                   '\\end{%s%s}' % (N.e, N.e), '\\end{f}', '\\left(', '\\big|', '\\cup', '\x00', '\x7f', '\r']
+                   '\\end{%s%s}' % (N.e, N.e), '\\end{f}', '\\left(', '\\big|', '\\cup', '\\textbf', '\\section',
+                   '\\def', '\x00', '\x7f', '\r']
     mini = ['\\', '{', '}', '[', ']', '$', N.sp, '\n', N.a, '%', '\\' + N.x, '\\begin{%s}' % N.e, '\\end{%s}' % N.e]
     return {'full': full, 'core': core, 'min': mini}[name]
 
@@ -105,20 +106,16 @@ def nest_kinds(N):
     ]
 
 
-def nests(depth, pairs):
-    """(label, list of pieces) - the concatenation of the pieces is the closed nest; cutting after any piece
-    gives a prefix cut at a token boundary."""
+def nests(depth, a, b):
+    """(label, list of pieces) for container kinds a, b alternating - the concatenation of the pieces is the
+    closed nest; cutting after any piece gives a prefix cut at a token boundary."""
     N = gram.Names(seed())
     kinds = nest_kinds(N)
-    combos = [(a, a) for a in range(len(kinds))]
-    if pairs:
-        combos += [(a, b) for a in range(len(kinds)) for b in range(len(kinds)) if a != b]
-    for a, b in combos:
-        pieces, closers = [], []
-        for d in range(depth):
-            o, c = kinds[a if d % 2 == 0 else b]
-            pieces.append(o)
-            closers.append(c)
-        pieces.append('z')
-        pieces += list(reversed(closers))
-        yield '%d/%d' % (a, b), pieces
+    pieces, closers = [], []
+    for d in range(depth):
+        o, c = kinds[a if d % 2 == 0 else b]
+        pieces.append(o)
+        closers.append(c)
+    pieces.append('z')
+    pieces += list(reversed(closers))
+    yield '%d/%d' % (a, b), pieces
